@@ -1,7 +1,6 @@
 # Table consumed by gen_manifest.py.  One chk(...) per claimed property.
-NOTES = ("Technique family: deterministic simulation with fault injection only. "
-         "Properties not yet claimed and not listed under not_applicable are still under construction; "
-         "see DESIGN.md section 0 for the plan.")
+NOTES = ("Technique family: deterministic simulation with fault injection only; six properties are pure functions of their input and are listed as not applicable (DESIGN.md section 7). "
+         "Genuine defects found by the checks are recorded in known_findings.json (fixed: F1-F9 as fix: commits in /repo; known: K1, K2).")
 
 chk("C06",
     "deterministic simulation: seeded operation histories (edges, marks, cycle detection, pickle restart) on the real EquivalenceDB vs a reachability reference model",
@@ -76,6 +75,11 @@ chk("C13",
     "deterministic simulation: the two searchers are driven through seeded pre-expansion prefixes with faults (levels, time-limit interrupts at chosen packets via the simulated clock, pickle restarts) before being handed to either finder variant; totality, C01/C02 validators on both members and Isomorphism.check in both directions",
     "Seeded exploration; the input dimension (pairs of classes and packs) dominates, the schedule dimension is the hand-over state of the two stateful searchers.",
     SEARCH_NOTE + " Atom-only verification and the default rule DB, as the finder requires. Known finding K2 is reported as KNOWN-FINDING.", "6.13")
+
+chk("C08",
+    "deterministic simulation with the random source under the simulator's control: every outcome of every sampler decision is enumerated (scripted SimRandom at the library's randint / random seams) - per rule with token sub-samplers, and as a depth-first exploration of the whole decision tree of the root sampler with exact rational probabilities - on specifications produced by simulated searches",
+    "Exhaustive inner enumeration of the random source per specification (no statistical test); the outer choice of specifications is seeded exploration.",
+    SEARCH_NOTE + " Global decision trees are capped at 3000 paths per (n, parameters); rules without a sampler (complement, quotient) are documented NotImplementedError and skipped.", "6.8")
 
 NA.update({
  "C07": "pure function of (specification, n, parameters): no clock, random source, I/O, ordering or restart point is involved, so there is no schedule or fault for a simulator to vary (DESIGN.md section 7)",
